@@ -105,6 +105,7 @@ static Outcome p_parser(Case const &c) {
         pos += n; if (pos < bytes.size()) cut_offsets.push_back(pos);
     }
     V_CHECK(got_eof, "parser:no-eof", "complete body consumed without eof");
+    int must_be_on_disk = 0;
     multipart_parser::files_type files = mp.get_files();
     V_CHECK(files.size() == c.body.parts.size(), "parser:part-count", std::to_string(files.size()) + " parts, expected " + std::to_string(c.body.parts.size()));
     for (size_t i = 0; i < files.size(); i++) {
@@ -118,8 +119,12 @@ static Outcome p_parser(Case const &c) {
         if (got != x.content) { size_t d = 0; while (d < got.size() && d < x.content.size() && got[d] == x.content[d]) d++;
             return bad("parser:content", where + "content " + std::to_string(got.size()) + "B expected " + std::to_string(x.content.size()) + "B, first difference at " + std::to_string(d)); }
         V_CHECK((long long)f.size() == (long long)x.content.size(), "parser:size", where + "size() " + std::to_string(f.size()));
-        if (c.fm >= 0) { bool on_disk = (long long)x.content.size() > c.fm; if (on_disk) VR.cls("parser.spilled_to_disk"); }
+        if (c.fm >= 0) { bool on_disk = (long long)x.content.size() > c.fm; if (on_disk) { VR.cls("parser.spilled_to_disk"); must_be_on_disk++; } }
     }
+    // "large files spill to temporary files": a part larger than the in-memory limit cannot be held in memory, so at least that many temporary files exist now
+    if (c.fm >= 0) { int on_disk_now = count_files(g_uploads);
+        V_CHECK(on_disk_now >= must_be_on_disk, "parser:large-part-kept-in-memory", std::to_string(must_be_on_disk) + " part(s) larger than file_in_memory_limit=" + std::to_string(c.fm) + " but only " + std::to_string(on_disk_now) + " temporary file(s) in the uploads directory");
+        if (must_be_on_disk) VR.cls("parser.spill_verified_on_disk"); }
     files.clear();
     if (nontrivial_cut(c.body, cut_offsets)) { vr::CaseWriter w; c.encode(w); VR.nontrivial(vr::fnv(w.str())); VR.cls("nontrivial.cut_inside_lookalike"); }
     if (VR.want_sample()) VR.sample("parser boundary=" + vr::show(c.body.boundary, 30) + " parts=" + std::to_string(c.body.parts.size()) + " body=" + vr::show(bytes, 120) + " cuts=" + std::to_string(c.cuts.size()));
@@ -336,7 +341,10 @@ static std::vector<int> gen_cuts(size_t total) {
     return c;
 }
 static rc::Gen<Case> gen_parser_case() {
-    return rc::gen::exec([]() { Case c; c.body = gen_body(6, *vr::range<int>(0, 10) == 0 ? 300000 : 3000); c.cuts = gen_cuts(c.body.bytes().size()); c.fm = *vr::range<int>(0, 3) == 0 ? *vr::range<int>(0, 2000) : -1; return c; });
+    return rc::gen::exec([]() { Case c; c.body = gen_body(6, *vr::range<int>(0, 10) == 0 ? 300000 : 3000); c.cuts = gen_cuts(c.body.bytes().size()); c.fm = *vr::range<int>(0, 3) == 0 ? *vr::range<int>(0, 2000) : -1;
+        // limit just below the size of one of the parts (the in-memory buffer grows in steps: the part must still go to disk)
+        if (!c.body.parts.empty() && *vr::range<int>(0, 3) == 0) { size_t sz = c.body.parts[*vr::range<int>(0, (int)c.body.parts.size())].content.size(); c.fm = (int)std::max<long long>(0, (long long)sz - *vr::range<int>(1, 71)); VR.cls("parser.gen_limit_just_below_part_size"); }
+        return c; });
 }
 static void gen_urlencoded(Case &c) {
     c.urlencoded = true; int n = *vr::range<int>(1, 8);
